@@ -469,10 +469,73 @@ func c20Same(p *core.Program, r *core.Report, t *types.Named) {
 			}
 			return "", ""
 		}
+		// a record of compared fields built by a method of the type (this.key() returning
+		// keyT{this.Sum, this.Count}): its fields are the fields of the value the method is called on
+		recordOf := func(x ast.Expr) *ordRecord {
+			call, ok := ast.Unparen(x).(*ast.CallExpr)
+			if !ok || len(call.Args) != 0 {
+				return nil
+			}
+			sel, ok := ast.Unparen(call.Fun).(*ast.SelectorExpr)
+			if !ok {
+				return nil
+			}
+			fn, _ := info.Uses[sel.Sel].(*types.Func)
+			if fn == nil {
+				return nil
+			}
+			cf := p.FuncOf(fn)
+			if cf == nil || cf.Decl.Body == nil || len(cf.Decl.Body.List) != 1 || cf.Decl.Recv == nil || len(cf.Decl.Recv.List) == 0 || len(cf.Decl.Recv.List[0].Names) == 0 {
+				return nil
+			}
+			rs, ok := cf.Decl.Body.List[0].(*ast.ReturnStmt)
+			if !ok || len(rs.Results) != 1 {
+				return nil
+			}
+			lit, ok := ast.Unparen(rs.Results[0]).(*ast.CompositeLit)
+			if !ok {
+				return nil
+			}
+			st, ok := cf.Pkg.TypesInfo.TypeOf(lit).Underlying().(*types.Struct)
+			if !ok || len(lit.Elts) != st.NumFields() {
+				return nil
+			}
+			crecv := cf.Pkg.TypesInfo.Defs[cf.Decl.Recv.List[0].Names[0]]
+			rec := &ordRecord{exprs: map[string]ast.Expr{}}
+			for i, el := range lit.Elts {
+				name := st.Field(i).Name()
+				val := el
+				if kv, ok := el.(*ast.KeyValueExpr); ok {
+					kid, ok := kv.Key.(*ast.Ident)
+					if !ok {
+						return nil
+					}
+					name, val = kid.Name, kv.Value
+				}
+				fs, ok := ast.Unparen(val).(*ast.SelectorExpr)
+				if !ok {
+					return nil
+				}
+				rid, ok := ast.Unparen(fs.X).(*ast.Ident)
+				if !ok || cf.Pkg.TypesInfo.ObjectOf(rid) != crecv {
+					return nil
+				}
+				rec.names = append(rec.names, name)
+				rec.exprs[name] = &ast.SelectorExpr{X: sel.X, Sel: fs.Sel}
+			}
+			return rec
+		}
 		ast.Inspect(fi.Decl.Body, func(n ast.Node) bool {
 			if e, ok := n.(ast.Expr); ok {
 				if s, k := side(e); s != "" {
 					keys[k] = true
+				}
+				if rec := recordOf(e); rec != nil {
+					for _, fx := range rec.exprs {
+						if s, k := side(fx); s != "" {
+							keys[k] = true
+						}
+					}
 				}
 			}
 			return true
@@ -482,7 +545,7 @@ func c20Same(p *core.Program, r *core.Report, t *types.Named) {
 			ks = append(ks, k)
 		}
 		sort.Strings(ks)
-		ev := &ordEval{info: info, side: side, ints: map[types.Object]int64{}, bools: map[string]bool{}, inl: newInliner(p, fi, nil)}
+		ev := &ordEval{info: info, side: side, ints: map[types.Object]int64{}, bools: map[string]bool{}, inl: newInliner(p, fi, nil), recordOf: recordOf}
 		for _, v := range []string{other + "!=nil", other + "==nil"} {
 			ev.bools[v] = v == other+"!=nil"
 		}
